@@ -136,7 +136,7 @@ bool OpMaxPart::IsCorrectlyDefined() const {
   for (const auto entity : arguments) {
     if (!schema.Contains(entity)) {
       return false;
-    } else if (!IsBaseSet(schema.GetRS(entity).type) && !CheckCst(entity, arguments)) {
+    } else if (!CheckCst(entity, arguments)) { // Note: a base set that carries a definition is checked as well
       return false;
     }
   }
